@@ -7,6 +7,7 @@ import (
 	"net/http"
 	"sort"
 
+	coreapi "github.com/zilliztech/milvus-cdc/core/api"
 	cdcreader "github.com/zilliztech/milvus-cdc/core/reader"
 	serverapi "github.com/zilliztech/milvus-cdc/server/api"
 	"github.com/zilliztech/milvus-cdc/server/model"
@@ -144,4 +145,22 @@ func verifPositionOrder(m map[string]*UpdatePositionInfo) []string {
 	}
 	sort.Strings(keys)
 	return keys
+}
+
+// VerifEventDiscarded, when set by a simulation harness, is told about every reader event that the event loop of a
+// downstream throws away because its task is no longer running (never blocks, observation only).
+var VerifEventDiscarded func(taskID string, eventType string, collectionID, partitionID int64)
+
+func verifEventDiscarded(ev *coreapi.ReplicateAPIEvent) {
+	if VerifEventDiscarded == nil || ev == nil {
+		return
+	}
+	var cid, pid int64
+	if ev.CollectionInfo != nil {
+		cid = ev.CollectionInfo.ID
+	}
+	if ev.PartitionInfo != nil {
+		pid = ev.PartitionInfo.PartitionID
+	}
+	VerifEventDiscarded(ev.TaskID, ev.EventType.String(), cid, pid)
 }
